@@ -1,4 +1,345 @@
-import MoPepGen.Model.Digest
+import MoPepGen.Lemmas.Regex
+import MoPepGen.Generated.Expasy
+/-!
+# C10 — canonical pool = exact in-silico digest of the proteome
+
+Property theorems only.  `Re`, `cleaveSites`, `enzymaticCleave`, `peptidePool`
+are the models of the Python (tied to /repo by the correspondence streams
+`sites`, `ranges`, `cleave`, `pool`); `isSite` and the right-hand sides below
+are the definitions the property text speaks about.
+-/
 namespace MoPepGen.Props.C10
-theorem placeholder : True := trivial
+open MoPepGen
+
+/-! ## rule semantics -/
+
+/-- `re.finditer` on a rule expression returns exactly the positions at which the
+expression matches positionally, in ascending order (no match can hide another:
+every alternative consumes one residue). -/
+theorem finditer_eq_positions (r : Re) (s : Pep) :
+    r.finditer s = (List.range s.length).filter (r.matchAt s) := by
+  simp [Re.finditer, finditerFrom_eq, List.range_eq_range']
+
+/-- The sites the code enumerates are exactly the positions that satisfy the ExPASy rule
+(rule matches, exception does not), for every rule, exception and string. -/
+theorem sites_eq_isSite (rule : Re) (exc : Option Re) (s : Pep) :
+    cleaveSites rule exc s = (List.range (s.length + 1)).filter (isSite rule exc s) := by
+  have hexc : ∀ j, (excEnds exc s).contains (j + 1) =
+      (match exc with | none => false | some e => e.matchAt s j) := by
+    intro j
+    cases exc with
+    | none => simp [excEnds]
+    | some e =>
+      simp only [excEnds, Re.ends, finditer_eq_positions]
+      rw [Bool.eq_iff_iff]
+      simp only [List.contains_iff_mem, List.mem_map, List.mem_filter, List.mem_range]
+      constructor
+      · rintro ⟨a, ⟨_, ha⟩, hj⟩
+        have : a = j := by omega
+        subst this; exact ha
+      · intro h
+        exact ⟨j, ⟨Re.matchAt_lt h, h⟩, rfl⟩
+  simp only [cleaveSites, Re.ends, finditer_eq_positions, List.range_succ_eq_map,
+    List.filter_cons, List.filter_map, List.filter_filter]
+  have h0 : isSite rule exc s 0 = false := by simp [isSite]
+  simp only [h0]
+  congr 1
+  apply List.filter_congr
+  intro j _
+  simp only [Function.comp, hexc, isSite, Nat.succ_eq_add_one, Nat.add_sub_cancel]
+  simp only [Nat.zero_lt_succ, decide_true, Bool.true_and]
+  exact Bool.and_comm _ _
+
+/-- sites are reported in strictly ascending order, all within `1..|s|` -/
+theorem sites_sorted (rule : Re) (exc : Option Re) (s : Pep) :
+    (cleaveSites rule exc s).Pairwise (· < ·) := by
+  rw [sites_eq_isSite]
+  exact List.Pairwise.filter _ List.pairwise_lt_range
+
+theorem sites_bounds (rule : Re) (exc : Option Re) (s : Pep) (i : Nat)
+    (h : i ∈ cleaveSites rule exc s) : 1 ≤ i ∧ i ≤ s.length := by
+  rw [sites_eq_isSite] at h
+  simp only [List.mem_filter, List.mem_range] at h
+  have : 0 < i := by
+    have := h.2; simp [isSite] at this; exact this.1.1
+  omega
+
+/-! ## partition independence
+
+A site verdict depends only on the residues within the rule's look-behind /
+look-ahead distance: cutting the sequence anywhere outside that window (to the
+left or to the right) does not change it. -/
+
+def lbBound (r : Re) : Nat := (r.map (·.lb.length)).foldr max 0
+def laBound (r : Re) : Nat := (r.map (·.la.length)).foldr max 0
+def optBound (f : Re → Nat) : Option Re → Nat
+  | none => 0
+  | some e => f e
+
+theorem le_lbBound {r : Re} {a : Alt} (h : a ∈ r) : a.lb.length ≤ lbBound r := by
+  induction r with
+  | nil => cases h
+  | cons b r ih =>
+    simp only [lbBound, List.map_cons, List.foldr_cons]
+    rcases List.mem_cons.mp h with rfl | h
+    · exact Nat.le_max_left _ _
+    · exact Nat.le_trans (ih h) (Nat.le_max_right _ _)
+
+theorem le_laBound {r : Re} {a : Alt} (h : a ∈ r) : a.la.length ≤ laBound r := by
+  induction r with
+  | nil => cases h
+  | cons b r ih =>
+    simp only [laBound, List.map_cons, List.foldr_cons]
+    rcases List.mem_cons.mp h with rfl | h
+    · exact Nat.le_max_left _ _
+    · exact Nat.le_trans (ih h) (Nat.le_max_right _ _)
+
+theorem any_congr' {α : Type} {l : List α} {p q : α → Bool} (h : ∀ a ∈ l, p a = q a) :
+    l.any p = l.any q := by
+  induction l with
+  | nil => rfl
+  | cons x xs ih =>
+    simp only [List.any_cons]
+    rw [h x (by simp), ih (fun a ha => h a (by simp [ha]))]
+
+/-- Appending anything to the right, beyond the look-ahead, changes no match. -/
+theorem matchAt_append_right (r : Re) (s suf : Pep) (i : Nat)
+    (h : i + 1 + laBound r ≤ s.length) : r.matchAt (s ++ suf) i = r.matchAt s i := by
+  simp only [Re.matchAt]
+  apply any_congr'
+  intro a ha
+  by_cases hi : a.lb.length ≤ i
+  · apply Alt.matchAt_congr a _ _ i i hi hi
+    intro k hk
+    have := le_laBound ha
+    simp only [Alt.width] at hk
+    apply List.getElem?_append_left
+    omega
+  · simp [Alt.matchAt, hi]
+
+/-- Prepending anything to the left, beyond the look-behind, changes no match. -/
+theorem matchAt_append_left (r : Re) (pre s : Pep) (i : Nat)
+    (h : lbBound r ≤ i) : r.matchAt (pre ++ s) (pre.length + i) = r.matchAt s i := by
+  simp only [Re.matchAt]
+  apply any_congr'
+  intro a ha
+  have hl := le_lbBound ha
+  apply Alt.matchAt_congr a _ _ _ i (by omega) (by omega)
+  intro k _
+  have e : pre.length + i - a.lb.length + k = pre.length + (i - a.lb.length + k) := by omega
+  rw [e, List.getElem?_append_right (by omega)]
+  congr 1; omega
+
+/-- A cut to the right of position `i`, at least the look-ahead distance away,
+does not change whether `i` is a cleavage site. -/
+theorem isSite_cut_right (rule : Re) (exc : Option Re) (s suf : Pep) (i : Nat)
+    (hr : i + laBound rule ≤ s.length) (he : i + optBound laBound exc ≤ s.length) :
+    isSite rule exc (s ++ suf) i = isSite rule exc s i := by
+  cases i with
+  | zero => simp [isSite]
+  | succ j =>
+    simp only [isSite, Nat.add_sub_cancel]
+    rw [matchAt_append_right rule s suf j (by omega)]
+    cases exc with
+    | none => rfl
+    | some e =>
+      simp only [optBound] at he
+      simp only [matchAt_append_right e s suf j (by omega)]
+
+/-- A cut to the left of position `i`, beyond the look-behind distance,
+does not change whether `i` is a cleavage site. -/
+theorem isSite_cut_left (rule : Re) (exc : Option Re) (pre s : Pep) (i : Nat)
+    (hr : lbBound rule < i) (he : optBound lbBound exc < i) :
+    isSite rule exc (pre ++ s) (pre.length + i) = isSite rule exc s i := by
+  cases i with
+  | zero => omega
+  | succ j =>
+    have e : pre.length + (j + 1) - 1 = pre.length + j := by omega
+    simp only [isSite, Nat.add_sub_cancel, e]
+    rw [matchAt_append_left rule pre s j (by omega)]
+    have hpos : decide (0 < pre.length + (j + 1)) = true := by
+      have : 0 < pre.length + (j + 1) := by omega
+      simp [this]
+    have hpos' : decide (0 < j + 1) = true := by simp
+    rw [hpos, hpos']
+    cases exc with
+    | none => rfl
+    | some x =>
+      simp only [optBound] at he
+      simp only [matchAt_append_left x pre s j (by omega)]
+
+/-! ## digest -/
+
+/-- What the two nested loops visit: all pairs of boundaries `st < en` with at most
+`misc` boundaries between them, and for the first boundary the Met-removed twin. -/
+theorem mem_cleaveCandidates (s : Pep) (bs : List Nat) (misc : Nat) (nf : Bool) (p : Pep) :
+    p ∈ cleaveCandidates s bs misc nf ↔
+      ∃ st en, st < en ∧ en < bs.length ∧ en - st - 1 ≤ misc ∧
+        (p = slice s (bs.getD st 0) (bs.getD en 0) ∨
+          (st = 0 ∧ nf = false ∧ (slice s (bs.getD st 0) (bs.getD en 0)).head? = some 'M' ∧
+            p = (slice s (bs.getD st 0) (bs.getD en 0)).drop 1)) := by
+  simp only [cleaveCandidates, List.mem_flatMap, List.mem_range, List.mem_append,
+    List.mem_singleton]
+  constructor
+  · rintro ⟨st, hst, k, hk, hp⟩
+    refine ⟨st, st + 1 + k, by omega, by omega, by omega, ?_⟩
+    rcases hp with hp | hp
+    · right
+      split at hp
+      · rename_i hc
+        simp only [Bool.and_eq_true, beq_iff_eq, Bool.not_eq_true'] at hc
+        simp only [List.mem_singleton] at hp
+        exact ⟨hc.1.1, hc.1.2, hc.2, hp⟩
+      · cases hp
+    · left; exact hp
+  · rintro ⟨st, en, h1, h2, h3, hp⟩
+    refine ⟨st, by omega, en - (st + 1), by omega, ?_⟩
+    have e : st + 1 + (en - (st + 1)) = en := by omega
+    rw [e]
+    rcases hp with hp | ⟨h0, hnf, hM, hp⟩
+    · right; exact hp
+    · left
+      subst h0 hnf
+      simp only [hM, hp, beq_self_eq_true, Bool.not_false, Bool.and_self, if_true,
+        List.mem_singleton]
+
+theorem filterKeep_none (c : CleaveCfg) (l : List Pep) :
+    filterKeep c l = none ↔ ∃ p ∈ l, c.keep p = none := by
+  induction l with
+  | nil => simp [filterKeep]
+  | cons q l ih =>
+    simp only [filterKeep, List.mem_cons, exists_eq_or_imp]
+    cases hq : c.keep q with
+    | none => simp
+    | some b =>
+      cases hl : filterKeep c l with
+      | none => cases b <;> simp [← ih, hl]
+      | some r => cases b <;> simp [← ih, hl]
+
+theorem filterKeep_some (c : CleaveCfg) (l r : List Pep) (h : filterKeep c l = some r) (p : Pep) :
+    p ∈ r ↔ p ∈ l ∧ c.keep p = some true := by
+  induction l generalizing r with
+  | nil => simp [filterKeep] at h; subst h; simp
+  | cons q l ih =>
+    simp only [filterKeep] at h
+    cases hq : c.keep q with
+    | none => simp [hq] at h
+    | some b =>
+      cases hl : filterKeep c l with
+      | none => cases b <;> simp [hq, hl] at h
+      | some r' =>
+        have := ih r' hl
+        cases b
+        · simp [hq, hl] at h; subst h
+          simp only [this, List.mem_cons]
+          constructor
+          · rintro ⟨h1, h2⟩; exact ⟨Or.inr h1, h2⟩
+          · rintro ⟨h1 | h1, h2⟩
+            · subst h1; simp [hq] at h2
+            · exact ⟨h1, h2⟩
+        · simp [hq, hl] at h; subst h
+          simp only [List.mem_cons, this]
+          constructor
+          · rintro (h1 | ⟨h1, h2⟩)
+            · subst h1; exact ⟨Or.inl rfl, hq⟩
+            · exact ⟨Or.inr h1, h2⟩
+          · rintro ⟨h1 | h1, h2⟩
+            · exact Or.inl h1
+            · exact Or.inr ⟨h1, h2⟩
+
+/-- S: the boundaries of a digest: `0`, every ExPASy site (ascending), and `|s|`. -/
+def digestBounds (c : CleaveCfg) (s : Pep) : List Nat :=
+  0 :: ((List.range (s.length + 1)).filter (isSite c.rule c.exc s) ++ [s.length])
+
+/-- S: `p` is a digestion product of `s`: a stretch between two boundaries with at most
+`misc` boundaries between them (or that stretch without its leading Met when it starts the
+protein and the CDS start is known), containing no `X`, within the length window and
+heavier than `minMw`. -/
+def DigestProduct (c : CleaveCfg) (s : Pep) (nf : Bool) (p : Pep) : Prop :=
+  ∃ st en, st < en ∧ en < (digestBounds c s).length ∧ en - st - 1 ≤ c.misc ∧
+    (p = slice s ((digestBounds c s).getD st 0) ((digestBounds c s).getD en 0) ∨
+      (st = 0 ∧ nf = false ∧
+        (slice s ((digestBounds c s).getD st 0) ((digestBounds c s).getD en 0)).head? = some 'M' ∧
+        p = (slice s ((digestBounds c s).getD st 0) ((digestBounds c s).getD en 0)).drop 1)) ∧
+    c.keep p = some true
+
+/-- `enzymatic_cleave` returns exactly the digestion products (when it returns). -/
+theorem cleave_spec (c : CleaveCfg) (s : Pep) (nf : Bool) (r : List Pep)
+    (h : enzymaticCleave c s nf = some r) (p : Pep) :
+    p ∈ r ↔ DigestProduct c s nf p := by
+  unfold enzymaticCleave at h
+  rw [filterKeep_some c _ r h p, mem_cleaveCandidates]
+  simp only [DigestProduct, digestBounds, bounds, sites_eq_isSite]
+  constructor
+  · rintro ⟨⟨st, en, h1, h2, h3, h4⟩, hk⟩
+    exact ⟨st, en, h1, h2, h3, h4, hk⟩
+  · rintro ⟨st, en, h1, h2, h3, h4, hk⟩
+    exact ⟨⟨st, en, h1, h2, h3, h4⟩, hk⟩
+
+/-- `enzymatic_cleave` raises exactly when some candidate without `X` carries a letter
+that has no mass. -/
+theorem cleave_raises_iff (c : CleaveCfg) (s : Pep) (nf : Bool) :
+    enzymaticCleave c s nf = none ↔
+      ∃ p ∈ cleaveCandidates s (bounds (cleaveSites c.rule c.exc s) s.length) c.misc nf,
+        c.keep p = none := by
+  unfold enzymaticCleave
+  exact filterKeep_none c _
+
+/-! ## pool -/
+
+/-- The canonical pool is exactly: for some proteome entry — leading `X` stripped,
+cut at the first stop — a digestion product of it (Met-removed form unless
+`cds_start_NF`) or the I→L image of one. -/
+theorem pool_spec (c : CleaveCfg) (prots : List (Pep × Bool)) (pool : List Pep)
+    (h : peptidePool c prots = some pool) (q : Pep) :
+    q ∈ pool ↔ ∃ e ∈ prots, ∃ p, DigestProduct c (prepProtein e.1) e.2 p ∧ (q = p ∨ q = iToL p) := by
+  induction prots generalizing pool with
+  | nil => simp [peptidePool] at h; subst h; simp
+  | cons e rest ih =>
+    obtain ⟨s, nf⟩ := e
+    simp only [peptidePool] at h
+    cases h1 : enzymaticCleave c (prepProtein s) nf with
+    | none => simp [h1] at h
+    | some ps =>
+      cases h2 : peptidePool c rest with
+      | none => simp [h1, h2] at h
+      | some r =>
+        simp [h1, h2] at h
+        subst h
+        have ih' := ih r h2
+        simp only [List.mem_append, List.mem_flatMap, List.mem_cons, List.not_mem_nil,
+          or_false, ih', exists_eq_or_imp]
+        constructor
+        · rintro (⟨p, hp, hq⟩ | hr)
+          · left
+            exact ⟨p, (cleave_spec c _ nf ps h1 p).mp hp, hq⟩
+          · right; exact hr
+        · rintro (⟨p, hp, hq⟩ | hr)
+          · left
+            exact ⟨p, (cleave_spec c _ nf ps h1 p).mpr hp, hq⟩
+          · right; exact hr
+
+/-- every pool member's I→L image is in the pool -/
+theorem pool_closed_iToL (c : CleaveCfg) (prots : List (Pep × Bool)) (pool : List Pep)
+    (h : peptidePool c prots = some pool) (q : Pep) (hq : q ∈ pool) : iToL q ∈ pool := by
+  rw [pool_spec c prots pool h] at hq ⊢
+  obtain ⟨e, he, p, hp, hq⟩ := hq
+  refine ⟨e, he, p, hp, Or.inr ?_⟩
+  rcases hq with rfl | rfl
+  · rfl
+  · simp [iToL, List.map_map]
+    intro a _ ; split <;> simp_all
+
+/-! ## tables -/
+
+/-- The range patterns are the site patterns with look-arounds flattened
+(checked against the regenerated tables). -/
+theorem rules2_is_flatten :
+    Generated.expasyRules.map (fun e => (e.1, e.2.map Alt.flat)) = Generated.expasyRules2 := by
+  decide
+
+/-! ## non-vacuity -/
+
+example : (Generated.expasyRules.lookup "trypsin").isSome = true := by decide
+
 end MoPepGen.Props.C10
